@@ -1,5 +1,5 @@
 (** Single entry point of the extracted model: request -> answer. *)
-From Physt Require Import Sx Merge Calc1D CalcND Fill.
+From Physt Require Import Sx Merge Calc1D CalcND Fill ArithCases.
 
 Definition run (req : sx) : sx :=
   match req with
@@ -8,6 +8,7 @@ Definition run (req : sx) : sx :=
   | LL [SS "C01"; c; o] => judge_C01 c o
   | LL [SS "C02"; c; o] => judge_C02 c o
   | LL [SS "C03"; c; o] => judge_C03 c o
+  | LL [SS "C05"; c; o] => judge_C05 c o
   | LL [SS "C10"; c; o] => judge_C10 c o
   | LL [SS "sumq"; l] => match d_list d_q l with Some qs => QQ (sumq qs) | None => illformed end
   | _ => SS "unknown-request"
